@@ -12,6 +12,9 @@ MCOpsAll ==
     \cup { [op |-> "remove_hash", d |-> d] : d \in Datas }
     \cup { [op |-> "exists", d |-> d] : d \in Datas }
     \cup { [op |-> "list"] }
+\* ... plus entries whose content is a symbolic link (feature link_to)
+MCOpsLink == MCOpsAll \cup { [op |-> "link_to", k |-> k, d |-> d] : k \in Keys, d \in Datas }
+MCOpsLinkNoRH == { o \in MCOpsLink : o.op # "remove_hash" }
 MCOpsNoRH == { o \in MCOpsAll : o.op # "remove_hash" }
 MCOpsWrite == { o \in MCOpsAll : o.op \in {"write", "write_hash", "remove", "read", "metadata"} }
 
